@@ -1,4 +1,5 @@
 #include "c_dateutils.h"
+#include <limits.h>
 
 
 
@@ -52,7 +53,10 @@ int c_dateutils_add1month(int * date)
     }
     else
     {
-        /* change year */
+        /* change year (cannot go beyond the largest integer) */
+        if(date[0] == INT_MAX)
+            return DATEUTILS_ERROR + __LINE__;
+
         date[1] = 1;
         date[0] += 1;
     }
@@ -93,7 +97,10 @@ int c_dateutils_add1day(int * date)
         }
         else
         {
-            /* change year */
+            /* change year (cannot go beyond the largest integer) */
+            if(date[0] == INT_MAX)
+                return DATEUTILS_ERROR + __LINE__;
+
             date[1] = 1;
             date[0] += 1;
             return 0;
@@ -109,6 +116,11 @@ int c_dateutils_add1day(int * date)
 int c_dateutils_getdate(double day, int * date)
 {
     int year, month, nday, nbday;
+
+    /* day is expected in the form yyyymmdd. Larger values
+     * cannot be converted to integer year, month and day */
+    if(!(day > -1e9 && day < 1e9))
+        return DATEUTILS_ERROR + __LINE__;
 
     year = (int)(day * 1e-4);
     month = (int)(day * 1e-2) - year * 100;
